@@ -573,9 +573,12 @@ def render_task(prog, nm):
         d['action'] = 'std.echo'
         d['input'] = {'output': bad_expr}
     for c in ('on-success', 'on-error', 'on-complete'):
+        tp = (t.get('tpublish') or {}).get(c)
         if t.get(c):
-            d[c] = _render_clause(t[c], form, lang,
-                                  (t.get('tpublish') or {}).get(c))
+            d[c] = _render_clause(t[c], form, lang, tp)
+        elif tp:
+            # a transition that only publishes ('next' is optional)
+            d[c] = {'publish': tp}
     if not d:
         d['action'] = 'std.noop'
     return d
